@@ -152,7 +152,17 @@ def tlc_failed(res):
 
 def tlc_error_text(res):
     lines = [l for l in res["out"].splitlines() if not l.startswith(("Parsing", "Semantic", "Linting", "Picked up"))]
-    return "\n".join(lines[-40:])
+    # the message of the first error (not the behaviour that follows it), the deepest expression positions, the summary
+    head, keep = [], False
+    for l in lines:
+        if l.startswith("Error:"):
+            keep = True
+        if keep and (l.startswith("State ") or "The behavior up to this point" in l):
+            break
+        if keep:
+            head.append(l)
+    pos = [l for l in lines if re.match(r"^\d+\. Line", l)]
+    return "\n".join(head[:25] + ["..."] + pos[-12:] + ["..."] + lines[-6:])
 
 
 NONCONF_RE = re.compile(r'^"?NONCONF (\d+) (\w+) \{(.*?)\}"?\s*$')
